@@ -28,14 +28,14 @@ def persistent_effect_nodes(ck, fa: FA):
     for n in cg.fs_write_sites.get(q, []):
         out.append((n, "filesystem write %s" % A.short(n, 50)))
     for (owner, fld, n) in cg.field_mut_sites.get(q, []):
-        if _persist_owner(ck, owner) and not fld.endswith(":autoviv") and fld.split(":")[0] not in ("read_only", "config", "storage_type"):
+        if _persist_owner(ck, owner) and fld.split(":")[0] not in ("read_only", "config", "storage_type"):
             out.append((n, "mutation of %s.%s" % (owner.split(".")[-1], fld)))
     for (call, cands, how) in cg.edges.get(q, []):
         for c in cands:
             if c.cls is not None and c.cls.qual == "storage_base.MemoryCache":
                 continue
             fs, muts, prev = reach_effects(ck, c)
-            pm = [m for m in muts if _persist_owner(ck, m[0]) and not m[1].endswith(":autoviv")]
+            pm = [m for m in muts if _persist_owner(ck, m[0])]
             if fs:
                 out.append((call, "call reaching a filesystem write (%s via %s)" % (A.short(fs[0][1], 40), fs[0][2])))
                 break
